@@ -126,10 +126,17 @@ func call(overrideFN *string, namespace types.EnvType, fIn types.MalType, args .
 		if _hm == nil {
 			_hm = types.HashMap{Val: make(map[string]types.MalType)}
 		}
-		hm := _hm.(types.HashMap)
-		set, ok := hm.Val[packageName].(types.Set)
-		if !ok {
-			set = types.Set{Val: make(map[string]struct{})}
+		// _PACKAGES_ and its sets are lisp values a program may already hold: extend copies, never the originals
+		old := _hm.(types.HashMap)
+		hm := types.HashMap{Val: make(map[string]types.MalType, len(old.Val)+1)}
+		for k, v := range old.Val {
+			hm.Val[k] = v
+		}
+		set := types.Set{Val: make(map[string]struct{})}
+		if oldSet, ok := old.Val[packageName].(types.Set); ok {
+			for k := range oldSet.Val {
+				set.Val[k] = struct{}{}
+			}
 		}
 		set.Val[functionName] = struct{}{}
 		hm.Val[packageName] = set
